@@ -2,14 +2,17 @@ package harness
 
 import (
 	"encoding/hex"
+	"encoding/json"
 	"fmt"
 	ethgotypes "github.com/ethereum/go-ethereum/core/types"
 	"github.com/ethereum/go-ethereum/crypto"
 	"math/big"
 	"os"
+	"path/filepath"
 	"strconv"
 	"strings"
 	"testing"
+	"time"
 
 	"github.com/ethereum/go-ethereum/common"
 
@@ -153,10 +156,59 @@ func driveETHPow(t *testing.T, in, out string, seed int64) {
 	c := l.C
 	noUncles := ethgotypes.EmptyUncleHash.Bytes()
 	someUncles := crypto.Keccak256([]byte("two uncles"))
+	var real []*ethtypes.EthHeader // the repository's genuinely sealed main-net headers
+	if bz, err := os.ReadFile(filepath.Join(os.Getenv("VERIF_REPO_DIR"), "x/xibc/clients/light-clients/eth/types/testdata/update_headers.json")); err == nil {
+		_ = json.Unmarshal(bz, &real)
+	}
 	for bi, b := range cases {
 		cs := b[0]
 		name := fmt.Sprintf("pow-%d", bi)
 		l.EnsureRelayer([]string{name})
+		if str(cs["fam"]) == "real" {
+			if len(real) < 3 {
+				t.Fatalf("main-net test headers not found (VERIF_REPO_DIR=%q)", os.Getenv("VERIF_REPO_DIR"))
+			}
+			// the chain's clock moves past the headers' dates (September 2021); DetRecord keeps what both replicas must agree on
+			if c.Header.Time.Unix() < int64(real[2].Time)+3600 {
+				c.SetTime(time.Unix(int64(real[2].Time)+3600, 0).UTC())
+			}
+			g := real[0].ToHeader()
+			cst := &ethtypes.ClientState{Header: g, ChainId: 1, ContractAddress: common.HexToAddress("0x1234").Bytes(), TrustingPeriod: 1_000_000_000}
+			cons := &ethtypes.ConsensusState{Timestamp: g.Time, Height: g.Height, Root: g.Root}
+			prop, err := clienttypes.NewCreateClientProposal("t", "d", name, cst, cons)
+			must(err)
+			if res, msg := c.ExecProposal(prop); res != "ok" {
+				t.Fatalf("create main-net client: %s %s", res, msg)
+			}
+			submit := func(h ethtypes.Header) TxResult {
+				msg, err := clienttypes.NewMsgUpdateClient(name, &h, c.Accts[lcRelayer].Acc)
+				must(err)
+				return c.DeliverMsgs(c.Accts[lcRelayer], msg)
+			}
+			child := real[1].ToHeader()
+			want := child
+			switch str(cs["mut"]) {
+			case "nonce":
+				child.Nonce = real[2].ToHeader().Nonce
+			case "mixdigest":
+				child.MixDigest = real[2].ToHeader().MixDigest
+			case "difficulty":
+				child.Difficulty = new(big.Int).Add(new(big.Int).SetBytes(child.Difficulty), big.NewInt(1)).Bytes()
+			case "second":
+				if r := submit(child); !r.OK() {
+					t.Logf("first main-net child refused: %s", r.Log)
+				}
+				child = real[2].ToHeader()
+				want = child
+			}
+			pre := c.Digest("xibc")
+			r := submit(child)
+			cs2, _ := c.App.XIBCKeeper.ClientKeeper.GetClientState(c.Ctx(), name)
+			headok := cs2 != nil && cs2.GetLatestHeight().GetRevisionHeight() == want.Height.RevisionHeight
+			tw.Emit(M{"ev": "Pow", "b": bi, "i": 0, "args": cs, "res": resOf(r), "msg": clip(r.Log), "stage": "real", "same": false, "headok": headok,
+				"sig": "Pow/real/" + str(cs["mut"]), "dg": M{"pre": pre, "post": c.Digest("xibc")}})
+			continue
+		}
 		pd := big.NewInt(131072)
 		if str(cs["parentDiff"]) == "large" {
 			pd = new(big.Int).Lsh(big.NewInt(1), 40)
